@@ -3,7 +3,7 @@ import MythVerif.Proofs.WsQueueTsoTac
 namespace MythVerif.WsqTso
 open MythVerif.Wsq
 
-set_option maxHeartbeats 1000000 in
+set_option maxHeartbeats 4000000 in
 theorem t_tpl (s s' : St) (p : Pid) (e) : Inv s → s.tpc p = .tpl e → stepT s p = some s' → Inv s' := by
   intro h heq hs
   have hb := h.tbufE p (by simp [heq, mayBuf])
@@ -19,7 +19,7 @@ theorem t_tpl (s s' : St) (p : Pid) (e) : Inv s → s.tpc p = .tpl e → stepT s
     simp only [ownerLocked, carry, resetting, ownerFlight] at *
     tso_finish
 
-set_option maxHeartbeats 1000000 in
+set_option maxHeartbeats 4000000 in
 theorem t_tp1 (s s' : St) (p : Pid) (e) : Inv s → s.tpc p = .tp1 e → stepT s p = some s' → Inv s' := by
   intro h heq hs
   have hb := h.tbufE p (by simp [heq, mayBuf])
@@ -30,7 +30,7 @@ theorem t_tp1 (s s' : St) (p : Pid) (e) : Inv s → s.tpc p = .tp1 e → stepT s
   all_goals simp only [ownerLocked, carry, resetting, ownerFlight] at *
   all_goals tso_finish
 
-set_option maxHeartbeats 1000000 in
+set_option maxHeartbeats 4000000 in
 theorem t_tp1b (s s' : St) (p : Pid) (e) : Inv s → s.tpc p = .tp1b e → stepT s p = some s' → Inv s' := by
   intro h heq hs
   have hb := h.tbufE p (by simp [heq, mayBuf])
